@@ -47,6 +47,55 @@ class FuncInfo:
     def is_property(self) -> bool:
         return "property" in self.decorators
 
+    def single_defs(self) -> Dict[str, ast.expr]:
+        """Locals assigned exactly once (plain name targets, not parameters, not loop variables): name -> value expression."""
+        if getattr(self, "_single", None) is None:
+            counts: Dict[str, int] = {}
+            defs: Dict[str, ast.expr] = {}
+            loopvars = set()
+            for n in walk_no_nested(self.node):
+                if isinstance(n, ast.Assign):
+                    for t in n.targets:
+                        for x in ast.walk(t):
+                            if isinstance(x, ast.Name) and isinstance(x.ctx, ast.Store):
+                                counts[x.id] = counts.get(x.id, 0) + (1 if x is t else 2)
+                                if x is t:
+                                    defs[x.id] = n.value
+                elif isinstance(n, ast.AnnAssign) and isinstance(n.target, ast.Name) and n.value is not None:
+                    counts[n.target.id] = counts.get(n.target.id, 0) + 1
+                    defs[n.target.id] = n.value
+                elif isinstance(n, ast.AugAssign) and isinstance(n.target, ast.Name):
+                    counts[n.target.id] = counts.get(n.target.id, 0) + 2
+                elif isinstance(n, (ast.For, ast.comprehension)):
+                    for x in ast.walk(n.target):
+                        if isinstance(x, ast.Name):
+                            loopvars.add(x.id)
+                elif isinstance(n, ast.With):
+                    for it in n.items:
+                        if isinstance(it.optional_vars, ast.Name):
+                            counts[it.optional_vars.id] = 2
+            ps = set(self.params())
+            object.__setattr__(self, "_single", {k: v for k, v in defs.items() if counts.get(k) == 1 and k not in ps and k not in loopvars})
+        return self._single  # type: ignore
+
+    def resolve(self, e: ast.AST, depth: int = 4) -> ast.AST:
+        """A copy of e with single-assignment locals replaced by their definitions (undoes 'extract variable')."""
+        import copy
+        single = self.single_defs()
+
+        class T(ast.NodeTransformer):
+            def __init__(self, d):
+                self.d = d
+
+            def visit_Name(self, n):
+                if isinstance(n.ctx, ast.Load) and n.id in single and self.d > 0:
+                    return T(self.d - 1).visit(copy.deepcopy(single[n.id]))
+                return n
+        return T(depth).visit(copy.deepcopy(e))
+
+    def rtext(self, e: ast.AST) -> str:
+        return ast.unparse(self.resolve(e))
+
     def params(self) -> List[str]:
         a = self.node.args
         out = [x.arg for x in a.posonlyargs + a.args]
